@@ -107,6 +107,32 @@ class SLen(SInt):
         self.of = of
 
 
+class WIdx:
+    """What x690.decode returns as 'next index' for a structured wire value: the position behind the k-th top-level
+    TLV.  The real value is a byte offset; the model only allows handing it back to decode() - arithmetic, ordering or
+    equality on it is undecided."""
+    __slots__ = ("k",)
+
+    def __init__(self, k):
+        self.k = k
+
+    def __repr__(self):
+        return "WIdx(%d)" % self.k
+
+    def _no(self, *a):
+        raise Undecided("arithmetic / comparison on a byte offset returned by x690.decode (only handing it back to decode is modelled)")
+    __add__ = __radd__ = __sub__ = __rsub__ = __lt__ = __le__ = __gt__ = __ge__ = __mul__ = _no
+    __bool__ = _no
+
+    def __eq__(self, other):
+        if isinstance(other, WIdx):
+            return self.k == other.k
+        self._no()
+
+    def __hash__(self):
+        return hash(("WIdx", self.k))
+
+
 def is_wire(v):
     return isinstance(v, (W, SBytes, bytes))
 
